@@ -2,7 +2,9 @@
 from fractions import Fraction as F
 from types import SimpleNamespace as NS
 
+import core
 import fracexec
+import u4_util as U4
 from fracexec import frac_str, frac_list
 
 MODULE = 'UwgVerif.Props.C18'
@@ -46,13 +48,20 @@ def clock(pkg, rng, m):
     return pkg.simparam.SimParam(300, 3600, m, rng.choice(DAYS), 1)
 
 
-def impl_surf(pkg, st, road, m, s, e, sim=None):
+def impl_surf(pkg, st, road, m, s, e, sim=None, circ=''):
+    """circ: circumstance that is no input - the Element and the clock rendered (repr / str) right before the call
+    and again before the results are read, DEBUG logging on around the call"""
     el = make_element(pkg, st, road)
     forc = NS(pres=F(101325), prec=F(0), deepTemp=F(290))
     par = NS(vegStart=s, vegEnd=e, vegAlbedo=st['va'], grassFLat=st['gf'], treeFLat=st['tf'],
              colburn=F(1), waterDens=F(1000), cp=F(1004), lv=F(2260000), wgmax=F(1, 200))
     sim = sim or NS(month=m, dt=F(300))
-    el.SurfFlux(forc, par, sim, F(1, 100), st['tr'], st['wind'], F(2), F(0))
+    if U4.rendered(circ):
+        U4.observe(el, sim)
+    with U4.under(circ):
+        el.SurfFlux(forc, par, sim, F(1, 100), st['tr'], st['wind'], F(2), F(0))
+    if U4.rendered(circ):
+        U4.observe(el, sim)
     return [el.solAbs, el.lat, el.sens, el.flux], el.aeroCond
 
 
@@ -62,7 +71,7 @@ def surf_line(st, road, m, s, e, aero):
     return 'surf m=%d s=%d e=%d road=%d v=%s' % (m, s, e, 1 if road else 0, frac_list(v))
 
 
-def impl_road_albedo(pkg, m, s, e, alb, vc, va, full=False, sim=None):
+def impl_road_albedo(pkg, m, s, e, alb, vc, va, full=False, sim=None, circ=''):
     """Road albedo used by the real solarcalcs, read off `mr` with non-reflecting walls
     (alb_wall = 0 gives fr = 1 and mr = alb_road * roadSol exactly)."""
     SolarCalcs = pkg.solarcalcs.SolarCalcs
@@ -77,7 +86,12 @@ def impl_road_albedo(pkg, m, s, e, alb, vc, va, full=False, sim=None):
         sol.tanzen = F(1, 2)
         sol.critOrient = F(1)
     sol.solarangles = angles
-    sol.solarcalcs()
+    if U4.rendered(circ):
+        U4.observe(sol, sim)
+    with U4.under(circ):
+        sol.solarcalcs()
+    if U4.rendered(circ):
+        U4.observe(sol, sim)
     if full:
         return (sol.mr / sol.roadSol, UCM.treeSensHeat, UCM.treeLatHeat, UCM.SolRecRoad,
                 UCM.treeCoverage, UCM.vegcover, par.treeFLat, par.grassFLat)
@@ -289,6 +303,174 @@ def live_configured_season_runs(chk):
                'the configured vegstart..vegend and the clock month', mismatches=len(bad), branches=counts)
 
 
+# ------------------------------------------------------------------------------ circumstances (round 4)
+MDAYS = [31, 28, 31, 30, 31, 30, 31, 31, 30, 31, 30, 31]
+
+
+def true_month(cfg, k):
+    """calendar month (365-day year) of the instant k steps after the start of the run - what the step's clock shows
+    by the time the physics runs (simulate advances the clock first). None for start days beyond the end of the
+    start month (there the package's own clock is the only reference)."""
+    if cfg['day0'] > MDAYS[cfg['month0'] - 1]:
+        return None
+    doy = sum(MDAYS[:cfg['month0'] - 1]) + cfg['day0'] - 1 + int(k * cfg['dt'] // 86400)
+    doy %= 365
+    mth = 0
+    while doy >= MDAYS[mth]:
+        doy -= MDAYS[mth]
+        mth += 1
+    return mth + 1
+
+
+def u4_install(sink, ctx):
+    """season oracle around every solarcalcs and every horizontal SurfFlux call, judged against the CONFIGURED season
+    (model.vegstart..vegend) and the calendar month of the step computed from the configured start date and the number
+    of steps taken - not from the Param object or the clock the kernels are handed"""
+    core.repo_python_path()
+    import uwg.solarcalcs as SC
+    import uwg.element as EL
+    orig_solar, orig_surf = SC.SolarCalcs.solarcalcs, EL.Element.SurfFlux
+    ctx['k'] = 0
+
+    def where(sim, cfg, tm):
+        return 'step %d of a run started %d/%d (dt %s s): calendar month %s; the model clock shows month %s day %s; ' \
+               'configured season %d..%d' % (ctx['k'], cfg['month0'], cfg['day0'], cfg['dt'], tm, sim.month, sim.day,
+                                              cfg['vs'], cfg['ve'])
+
+    def solar_wrap(self):
+        out = orig_solar(self)
+        cfg = ctx.get('cfg')
+        if cfg is None:
+            return out
+        ctx['k'] += 1
+        tm = true_month(cfg, ctx['k'])
+        tm = self.simTime.month if tm is None else tm
+        ctx['tm'] = tm
+        if self.dir + self.dif > 0:
+            ins = cfg['vs'] <= tm <= cfg['ve']
+            heat = (self.UCM.treeSensHeat, self.UCM.treeLatHeat)
+            if not ins:
+                sink('solarcalcs:off-season', None if heat == (0., 0.) else
+                     'reflection model releases vegetation heat %r outside the configured season; %s; season handed to '
+                     'the kernels %s..%s' % (heat, where(self.simTime, cfg, tm), self.parameter.vegStart,
+                                              self.parameter.vegEnd))
+            elif self.UCM.vegcover > 0 and self.UCM.SolRecRoad > 0 and self.parameter.vegAlbedo < 1:
+                sink('solarcalcs:in-season', None if heat[0] + heat[1] > 0 else
+                     'reflection model treats the road as bare (vegetation heat %r) inside the configured season; %s; '
+                     'season handed to the kernels %s..%s' % (heat, where(self.simTime, cfg, tm),
+                                                               self.parameter.vegStart, self.parameter.vegEnd))
+        return out
+
+    def surf_wrap(self, forc, parameter, simTime, *a, **k):
+        r = orig_surf(self, forc, parameter, simTime, *a, **k)
+        cfg = ctx.get('cfg')
+        if cfg is not None and 'tm' in ctx and self.horizontal and self.solRec > 0 and self.vegcoverage > 0 \
+                and parameter.vegAlbedo != self.albedo:
+            tm = ctx['tm']
+            ins = cfg['vs'] <= tm <= cfg['ve']
+            kind = cfg['kinds'].get(id(self), 'other')
+            bare = (1.0 - self.albedo) * self.solRec
+            sink('%s:%s' % (kind, 'in-season' if ins else 'off-season'), None if (self.solAbs == bare) != ins else
+                 '%s (%s): absorbed sunlight %r is %s the bare-ground value; %s; season handed to the kernels %s..%s' % (
+                     kind, self.name, self.solAbs, 'equal to' if self.solAbs == bare else 'not',
+                     where(simTime, cfg, tm), parameter.vegStart, parameter.vegEnd))
+        return r
+    SC.SolarCalcs.solarcalcs = solar_wrap
+    EL.Element.SurfFlux = surf_wrap
+
+    def undo():
+        SC.SolarCalcs.solarcalcs = orig_solar
+        EL.Element.SurfFlux = orig_surf
+    return undo
+
+
+def u4_after_generate(m, spec, sink, ctx):
+    kinds = {id(m.UCM.road): 'road', id(m.rural): 'rural'}
+    for b in m.BEM:
+        kinds[id(b.roof)] = 'roof'
+    ctx['cfg'] = dict(vs=m.vegstart, ve=m.vegend, month0=m.month, day0=m.day, dt=m.dtsim, kinds=kinds)
+    p = m.geoParam
+    sink('generate:season-handed-to-the-kernels',
+         None if (p.vegStart, p.vegEnd) == (m.vegstart, m.vegend) else
+         'generate() hands the season %s..%s to the kernels; configured: vegstart %s, vegend %s (rural file: latitude '
+         '%s, longitude %s, time zone %s)' % (p.vegStart, p.vegEnd, m.vegstart, m.vegend, m.lat, m.lon, m.gmt))
+
+
+U4_HOOKS = U4.Hooks(install=u4_install, after_generate=u4_after_generate,
+                    kernels=[('uwg.solarcalcs', 'SolarCalcs', 'solarcalcs', ()),
+                             ('uwg.element', 'Element', 'SurfFlux', (1, 2, 3))])
+
+
+def circumstance_ties(chk, quick):
+    """(a) the six circumstances on live runs crossing / inside / outside the season; (b) the rural-file family: the
+    same season oracle on files whose LOCATION cells (latitude, longitude, time zone, elevation) take legal values no
+    shipped file has - the season is configured in calendar months, the site is no input of it."""
+    import os
+    import uwgutil as U
+    work = chk.work()
+    src = U.rp(U4.SGP[1])
+    files = {k: U4.site_file(src, os.path.join(work, 'site_%s.epw' % k), k, 'actual-year-header' if n % 2 else 'base')
+             for n, k in enumerate(sorted(U4.SITES))}
+    scen = [U4.make_spec('31 Mar + 2 days, season 4..10 (starts on day 2)', month=3, day=31, nday=2, dtsim=300,
+                         vegstart=4, vegend=10),
+            U4.make_spec('31 Oct + 2 days, season 4..10 (ends after day 1), site south-33.9-east',
+                         epw=files['south-33.9-east'], month=10, day=31, nday=2, dtsim=300, vegstart=4, vegend=10),
+            U4.make_spec('10 Jul, season 4..10, vegetated roofs only (no ground vegetation)', month=7, day=10, nday=1,
+                         dtsim=300, vegstart=4, vegend=10, grasscover=0, treecover=0, rurvegcover=0, vegroof=0.5)]
+    if not quick:
+        scen += [U4.make_spec('28 Feb + 2 days, season 3..3', month=2, day=28, nday=2, dtsim=300, vegstart=3, vegend=3),
+                 U4.make_spec('30 Jun + 2 days, season 1..6, site north-40-west', epw=files['north-40-west-negative-tz'],
+                              month=6, day=30, nday=2, dtsim=300, vegstart=1, vegend=6)]
+    counts, nbad, _ = U4.live_battery(
+        chk, 'C18', U4_HOOKS, scen, U4.others_default(work), 'season oracle on live runs',
+        full=1 if quick else len(scen), required=('generate:season',))
+    if not (counts.get('oracle:road:in-season') and counts.get('oracle:road:off-season') and
+            counts.get('oracle:roof:in-season') and counts.get('oracle:rural:in-season')):
+        raise core.Infra('the season scenarios no longer cover road / rural / roof in and off season: %s' % counts)
+    chk.direct('C18-circumstances(live runs: observers, logging, -O, CLI, other models, caller data)',
+               sum(counts.values()), len(scen),
+               'oracle = at every solarcalcs call and every SurfFlux call of a vegetated horizontal element (road, rural '
+               'ground, roofs): vegetation acts exactly when the CALENDAR month of the step - computed from the '
+               'configured start date and the number of steps taken, not read from the clock or the Param object the '
+               'kernels are handed - lies in the configured vegstart..vegend; after generate() the season handed to the '
+               'kernels is the configured one. Scenarios: %s. %s' % ('; '.join(s_['label'] for s_ in scen),
+                                                                    U4.BATTERY_RULE), mismatches=nbad, branches=counts)
+    # (b) the site family
+    cases = []
+    months = [(7, 4, 10), (1, 4, 10), (1, 1, 6), (11, 5, 11), (5, 5, 5), (12, 1, 11)]
+    for n, site in enumerate(sorted(U4.SITES)):
+        picks = [months[n % len(months)], months[(n + 2) % len(months)]] if quick else months
+        for (mo, vs, ve) in picks:
+            cases.append(U4.make_spec('site %s%s: month %d, season %d..%d' % (
+                site, ' + actual-year header' if sorted(U4.SITES).index(site) % 2 else '', mo, vs, ve),
+                epw=files[site], about={'LOCATION cells 6..9 (lat, lon, time zone, elevation)': U4.SITES[site]},
+                month=mo, day=12, nday=1, dtsim=300, vegstart=vs, vegend=ve))
+    br, bad = {}, 0
+    for n, sp in enumerate(cases):
+        r = U4.run_one(sp, U4_HOOKS, work, 'site_%d.epw' % n, 'plain')
+        for k, v in r['evaluations'].items():
+            br[k] = br.get(k, 0) + v
+        if r['verdict'] != 'ok':
+            chk.notes.append('site run %s: %s' % (sp['label'], r['verdict']))
+        for v in r['violations'][:1]:
+            bad += 1
+            if bad <= 3:
+                chk.violation('impl-violation', 'season oracle on a live run, rural file with other LOCATION cells',
+                              case={'scenario': sp['label'], 'about': sp['about'], 'oracle': v['oracle']},
+                              observed=v['observed'],
+                              expected='vegetation acts in exactly the configured months vegstart..vegend, whatever '
+                                       'latitude / longitude / time zone / elevation the rural file states')
+    if not (br.get('road:in-season') and br.get('road:off-season') and br.get('rural:in-season')):
+        raise core.Infra('site family: no vegetated surface judged in / off season: %s' % br)
+    chk.direct('C18-rural-file-family(LOCATION cells: southern / western / equatorial / below-sea-level sites)',
+               sum(br.values()), len(cases),
+               'copies of the shipped rural file whose LOCATION line states latitude -1.37 / -33.95 / -34.82 / 0.0 / 40.0 '
+               '/ 31.5, longitude east and west, time zones -7 .. +10, elevation -400 .. 1650 m (every other one with the '
+               'actual-year header of s1_util): 1-day runs in and outside the configured season, judged per step by the '
+               'same oracle as above (calendar month of the step vs configured vegstart..vegend; season handed to the '
+               'kernels = configured season)', mismatches=bad, branches=br)
+
+
 def run(chk):
     chk.proof(MODULE, THEOREMS)
     if chk.tier == 'thorough':
@@ -305,14 +487,17 @@ def run(chk):
             for _ in range(nstates):
                 st = surf_state(rng)
                 ck = clock(pkg, rng, m)
-                out, aero = impl_surf(pkg, st, road, m, s, e, sim=ck)
+                out, aero = impl_surf(pkg, st, road, m, s, e, sim=ck, circ=U4.circ_pick(rng))
                 cases.append((surf_line(st, road, m, s, e, aero), 'ok ' + frac_list(out)))
                 meta.append((m, s, e, road, dict(st, clock_day=ck.day), out))
     chk.correspond('Element.SurfFlux~surfFluxHorizontal', 'C18', cases,
                    rule='fractionised Element.SurfFlux (horizontal) for ALL 12x12x12 (month,start,end) '
                         'x {road, non-road} x random states vs Lean model, exact; every case non-trivial; the clock '
                         'handed in is a real SimParam showing that month and a day drawn from 1, 15, 28..31 (days '
-                        'beyond the end of the month included: the package accepts them)',
+                        'beyond the end of the month included: the package accepts them); three cases of five under '
+                        'a circumstance that is no input (Element and clock rendered with repr / str right before the '
+                        'call and before the results are read; DEBUG logging on; both) - likewise in the two solarcalcs '
+                        'ties (SolarCalcs object and clock rendered)',
                    classify=lambda l, i: 'road' if 'road=1' in l else 'nonroad')
 
     # --- tie 2: road albedo inside solarcalcs, every triple
@@ -320,7 +505,7 @@ def run(chk):
     for (m, s, e) in triples:
         alb, vc, va = rq(rng, 0.05, 0.5), rq(rng, 0.05, 0.95), rq(rng, 0.1, 0.45)
         ck = clock(pkg, rng, m)
-        got = impl_road_albedo(pkg, m, s, e, alb, vc, va, sim=ck)
+        got = impl_road_albedo(pkg, m, s, e, alb, vc, va, sim=ck, circ=U4.circ_pick(rng))
         cases2.append(('alb m=%d s=%d e=%d v=%s' % (m, s, e, frac_list([alb, vc, va])),
                        'ok ' + frac_str(got)))
         meta2.append((m, s, e, alb, vc, va, got, ck.day))
@@ -334,7 +519,8 @@ def run(chk):
     for (m, s, e) in triples:
         alb, vc, va = rq(rng, 0.05, 0.5), rq(rng, 0.05, 0.95), rq(rng, 0.1, 0.45)
         ck = clock(pkg, rng, m)
-        _a, ts, tl, rr, tc, vcov, tf, gf = impl_road_albedo(pkg, m, s, e, alb, vc, va, full=True, sim=ck)
+        _a, ts, tl, rr, tc, vcov, tf, gf = impl_road_albedo(pkg, m, s, e, alb, vc, va, full=True, sim=ck,
+                                                            circ=U4.circ_pick(rng))
         cases3.append(('vegheat m=%d s=%d e=%d v=%s' % (m, s, e, frac_list([va, tf, gf, rr, tc, vcov])),
                        'ok ' + frac_list([ts, tl])))
         meta3.append((m, s, e, ts, tl, ck.day))
@@ -388,6 +574,7 @@ def run(chk):
                mismatches=bad)
     live_season_runs(chk)
     live_configured_season_runs(chk)
+    circumstance_ties(chk, chk.tier == 'quick')
     wrap = [(m, s, e) for (m, s, e, *_r) in meta2 if s > e]
     chk.measurements['wraparound'] = (
         'start > end (%d of 1728 triples): both routines treat every month as off-season '
